@@ -50,6 +50,32 @@ CHECKS.update({
             'code-level and behavioural.', _BEAR_NOTE, 'DESIGN §4 C12'),
 })
 
+CHECKS.update({
+    'C03': (_BEAR_TECH + ' + model of the explanation path (hasCause) proved to find a cause whenever the generated code rejects',
+            'Theorems (Props/C03.lean): no desynchronisation (chk false => the finder model finds a cause, under O1 and On), all entry points '
+            'evaluate the same expression (= chk), the signal is the configured class (specific option, else violation_type, else default), '
+            'warned iff Warning. Tie: five entry points must agree under forced draws; rejecting cases are re-run over violation_type / '
+            'violation_door_type / verbosity / is_color / strategy combinations checking exception class, warning + call proceeds, '
+            'culprits[0], hint named in the message, no other exception.', _BEAR_NOTE + ' Message wording is not modelled.', 'DESIGN §4 C03'),
+    'C18': ('Lean 4 proof (rewriting reaches every depth once; union flattening preserves meaning and sampled check) + metamorphic '
+            'differential of the real options against real hand-rewritten hints (canonical generated code and verdicts)',
+            'Theorems (Props/C18.lean): rewrite/flatten laws, numeric tower instance, violation types never change a verdict. Tie on every run: '
+            'is_pep484_tower and hint_overrides (incl. self-recursive A->A|int and class->container) vs the default configuration on the '
+            'hand-rewritten hint: same canonical code, same is_bearable / die_if_unbearable under forced draws; both equal the Lean generator.',
+            _BEAR_NOTE + ' _reduce_hint_overrides itself is tied only through the metamorphic differential.', 'DESIGN §4 C18'),
+    'C08': ('Lean 4 simulation proof (decorated generator/coroutine/async-generator object = lift of the undecorated one, all bodies, all '
+            'operation sequences) over a model of CPython 3.12\'s generator protocol; translator-extracted reinit decision + snippet ASTs; '
+            'three-way differential on enumerated transition tables',
+            'Theorems (Props/C08.lean): the wrapper emitted from code-object flags has the decoratee\'s inspect kind and awaits the call iff '
+            'coroutine; for every resumable body that does not yield on GeneratorExit and every finite sequence of next/send/throw/close '
+            '(anext/asend/athrow/aclose) the decorated object yields the same per-operation values, exceptions and finalisation log as the '
+            'original, the returned value going through the return check - except explicit throw(GeneratorExit) into a body that swallows it '
+            'and returns (counterexample theorems; known finding F-C08a). Tied to /repo by extracted tables and exhaustive-small plus random '
+            'table x operation-sequence differentials on real objects.',
+            'Partial at F-C08a only. Modelled, not verified: CPython 3.12 generator protocol (validated against real objects); no event loop, '
+            'GC finalisation, asyncgen hooks, tracebacks.', 'DESIGN §4 C08'),
+})
+
 PENDING = {
 }
 
